@@ -194,6 +194,18 @@ class Rat:
     def atoms(self):
         return self.n.atoms() | self.d.atoms()
 
+    def const_ratio(self):
+        """the Fraction k when num == k * den as polynomials (the value is the constant k wherever it is defined), else None"""
+        if not self.d.t:
+            return None
+        if not self.n.t:
+            return Fraction(0)
+        k0 = next(iter(self.d.t))
+        if k0 not in self.n.t:
+            return None
+        k = self.n.t[k0] / self.d.t[k0]
+        return k if (self.n - self.d * Poly.const(k)).iszero() else None
+
     def single_atom(self):
         """the atom name if this value is exactly one atom, else None"""
         if self.d == ONE and len(self.n.t) == 1:
